@@ -9,8 +9,8 @@ from mc.gen import detspaces
 PROP = "C03"
 
 
-def items(tier: str) -> List[Any]:
-    return [it for it in detspaces.detector_spaces(tier) if it[1] == "direct"]
+def items(tier: str) -> Any:
+    return (it for it in detspaces.detector_spaces(tier) if it[1] == "direct")
 
 
 def worker_init() -> None:
@@ -67,11 +67,11 @@ def attribute(entry: Any, v: Any) -> bool:
 def main(argv: List[str]) -> int:
     tier, seed = runner.tier_and_seed(argv)
     t0 = time.time()
-    its = runner.rotate(items(tier), seed)
+    its, _ = runner.work_list(items, tier, seed)
     total = runner.execute("mc.checks.c03", "worker", its, chunk=40)
     c = total.counters
     cov = {
-        "programs": len(its),
+        "programs": c.get("items", 0),
         "states": c.get("o2_states", 0),
         "transitions": c.get("o2_transitions", 0),
         "traces_validated_against_impl": c.get("detector_runs", 0),
